@@ -780,6 +780,11 @@ def apply_as_grid_ufunc(
             dask,
             **kwargs,
         )
+        # `other_component` holds one entry per input; the outputs need one entry each
+        other_component_of_results = [
+            other_component[i] if i < len(other_component) else None
+            for i in range(len(unpadded_results))
+        ]
         results = _pad_then_rechunk(
             unpadded_results,
             grid,
@@ -787,7 +792,7 @@ def apply_as_grid_ufunc(
             boundary_width_real_axes,
             boundary,
             fill_value,
-            other_component,
+            other_component_of_results,
         )
 
     # TODO add option to trim result if not done in ufunc
